@@ -1100,6 +1100,79 @@ def run_claims(ctx):
                               "decoding and validating a signed JWT as %s raised %s, which is not in the JoseError family: %s" % (cname, type(e).__name__, str(e)[:100]), case)
 
 
+def run_oauth1_deep(ctx):
+    """Correctly signed OAuth 1 requests (PLAINTEXT: the signature is secret&secret) that get past the signature check, with hostile
+    values in the parameters that are read afterwards: callback, verifier, token, extra parameters, the user's decision."""
+    from props import c12
+    import urllib.parse as up
+    rng = ctx.rng
+    quick = ctx.tier == "quick"
+    lv = c12.Live(["HMAC-SHA1", "PLAINTEXT", "RSA-SHA1"])
+    n = [0]
+
+    def post(path, params, headers=None):
+        return lv.prov.client.open(path, method="POST", base_url=c12.BASE, data=params, headers=headers or {})
+
+    def signed(extra, token_secret="", **over):
+        n[0] += 1
+        p = {"oauth_consumer_key": "c1", "oauth_signature_method": "PLAINTEXT", "oauth_timestamp": str(lv.clock.t), "oauth_nonce": "deep%d" % n[0],
+             "oauth_signature": up.quote("s1-secret", safe="~") + "&" + up.quote(token_secret, safe="~")}
+        p.update(extra)
+        p.update(over)
+        return p
+
+    def look(ep, resp, case):
+        st = resp.status_code
+        body = resp.get_data(as_text=True)
+        d = dict(up.parse_qsl(body)) if not body.startswith("{") else json.loads(body)
+        if st == 302:
+            d = dict(up.parse_qsl(up.urlsplit(resp.headers["Location"]).query))
+        code = d.get("error")
+        if st not in FITTING:
+            ctx.violation("C20:status:%s:%d" % (ep, st), "an OAuth 1 endpoint answered with status %d" % st, case)
+        elif code is not None and code not in REGISTERED:
+            ctx.violation("C20:unregistered-error:%s:%s" % (ep, code), "an OAuth 1 error response carries an unregistered code", case)
+        ctx.count("outcome:%s:%s" % (ep, ("error:%s" % code) if code else "status-%d" % st))
+        return st, d
+    try:
+        pool = HOSTILE if not quick else rng.sample(HOSTILE, 10) + ["https://[x", "9" * 400]
+        for h in pool:
+            for stage in ("callback", "authorize-extra", "verifier", "token-extra", "api-extra", "deny"):
+                case = {"endpoint": "o1-deep", "stage": stage, "hostile": h}
+                ctx.case(case, ("o1-deep", stage, h), "endpoint:o1-deep:%s" % stage)
+                try:
+                    r = post("/initiate", signed({"oauth_callback": h if stage == "callback" else "https://c1.example/cb"}))
+                    st, d = look("o1-deep:initiate", r, case)
+                    if st != 200 or "oauth_token" not in d:
+                        continue
+                    tok, sec = d["oauth_token"], d["oauth_token_secret"]
+                    ap = {"oauth_token": tok}
+                    if stage == "authorize-extra":
+                        ap.update({"x": h, "oauth_callback": h, "oauth_verifier": h})
+                    r = post("/authorize", ap, {} if stage == "deny" else {"X-User": "alice" if stage != "authorize-extra" or any(ord(c) < 32 or ord(c) == 127 for c in h) or not h
+                                               else h.encode("utf-8", "surrogatepass").decode("latin-1")})
+                    st, d = look("o1-deep:authorize", r, case)
+                    verifier = d.get("oauth_verifier", "v")
+                    tp = {"oauth_token": tok, "oauth_verifier": h if stage == "verifier" else verifier}
+                    if stage == "token-extra":
+                        tp.update({"x": h, "oauth_callback": h, "scope": h})
+                    r = post("/token", signed(tp, sec))
+                    st, d = look("o1-deep:token", r, case)
+                    if st != 200 or "oauth_token" not in d:
+                        continue
+                    apip = {"oauth_token": d["oauth_token"]}
+                    if stage == "api-extra":
+                        apip.update({"x": h, "oauth_verifier": h, "oauth_callback": h})
+                    r = post("/api", signed(apip, d["oauth_token_secret"]))
+                    look("o1-deep:api", r, case)
+                except Exception as e:  # noqa: BLE001
+                    ctx.violation("C20:crash:o1-deep:%s:%s@%s" % (stage, type(e).__name__, site(e)),
+                                  "a correctly signed OAuth 1 request with a hostile %s ended in an unhandled %s: %s" % (stage, type(e).__name__, str(e)[:100]), case)
+                    ctx.count("outcome:o1-deep:%s:crash:%s" % (stage, type(e).__name__))
+    finally:
+        lv.close()
+
+
 def run_oauth1(ctx):
     """the OAuth 1 provider of the C12 harness with hostile oauth_* values, raw headers and bodies"""
     from props import c12
@@ -1183,6 +1256,7 @@ def run(ctx):
                 "model correspondence: 19 modelled functions x pool of 34 JSON values per member; quick tier samples the pools; distinct_nontrivial = distinct inputs")
     run_endpoints(ctx)
     run_oauth1(ctx)
+    run_oauth1_deep(ctx)
     run_jose(ctx)
     run_jose_json(ctx)
     run_claims(ctx)
